@@ -228,6 +228,11 @@ def catalogue_c04(tier):
     cs.append(ex(case('c04/observe_on-over-retry-once', oo(T('retry', 2, ins=[cold(fail_then_ok)])), [], tags=['errpass']), [('n', 1), ('n', 2), ('c', 0)]))
     cs.append(ex(case('c04/resume-just-over-observe_on', T('on_error_resume_next', 0, 'just', ins=[oo(S(1))]), [items(1, 1) + [E(1, 'e', 5)]], tags=['errpass']), [('n', 11), ('n', 9), ('c', 0)]))
     cs.append(ex(case('c04/resume-error-over-threaded-source', T('on_error_resume_next', 0, 'error', ins=[acold([[n(1), e7]])]), [], tags=['errpass']), [('n', 1), ('e', 8)]))
+    # an input fails while another thread is delivering items of another input: the error still arrives, once, last
+    two = {'merge': T('merge', ins=[S(1), S(2)]), 'zip': T('zip', ins=[S(1), S(2)]), 'combine_latest': T('combine_latest', ins=[S(1), S(2)]),
+           'flat_map': T('merge', ins=[T('flat_map', f='just', ins=[S(1)]), S(2)]), 'take_until': T('take_until', ins=[S(1), S(2)]), 'sample': T('sample', ins=[S(1), S(2)])}
+    for nm, root in two.items():
+        cs.append(ex(case('c04/%s/error-while-other-input-emits' % nm, root, [items(1, 3), [E(2, 'e', 5)]], tags=['ends-with']), [('e', 5)]))
     if tier == 'thorough':
         cs.append(ex(case('c04/retry_when-payload-over-threaded-source', T('retry_when', 7, 'payload', ins=[acold([[n(1), e7], [n(2), {'k': 'e', 'v': 8}]])]), [], tags=['errpass']), [('n', 1), ('n', 2), ('e', 8)]))
         cs.append(ex(case('c04/retry-twice-over-observe_on-cold', T('retry', 3, ins=[oo(cold([[n(1), e7], [n(2), e7], [n(3), cc]]))]), [], tags=['errpass']), [('n', 1), ('n', 2), ('n', 3), ('c', 0)]))
@@ -265,6 +270,8 @@ def catalogue_c15(tier):
           timed(case('c15/debounce-unsub', T('debounce', 100, ins=[S(1)]), [[E(1, 'n', 11), SL(150), UNSUB1, SL(400)]], tags=W), 100),
           timed(case('c15/timeout-complete', T('timeout', 100, ins=[S(1)]), [[E(1, 'n', 11), SL(20), E(1, 'c'), SL(500)]], tags=W), 100),
           timed(case('c15/timeout-unsub', T('timeout', 100, ins=[S(1)]), [[E(1, 'n', 11), SL(20), UNSUB1, SL(500)]], tags=W), 100),
+          timed(case('c15/timeout-take2-ends-during-delivery', T('take', 2, ins=[T('timeout', 100, ins=[S(1)])]), [[E(1, 'n', 11), SL(20), E(1, 'n', 12), SL(500)]], tags=W), 100),
+          timed(case('c15/timeout-first-ends-during-delivery', T('first', ins=[T('timeout', 100, ins=[S(1)])]), [[E(1, 'n', 11), SL(500)]], tags=W), 100),
           timed(case('c15/timeout-fires', T('timeout', 100, ins=[S(1)]), [[E(1, 'n', 11), SL(500)]], tags=W), 100),
           timed(case('c15/interval-take_until-timer', T('take_until', ins=[iv(100), T('timer', 250, b=0)]), [[SL(800)]], tags=W), 250),
           timed(case('c15/interval-amb-timer', T('amb', ins=[iv(100), T('timer', 250, b=0)]), [[SL(450), UNSUB1, SL(500)]], tags=W), 250)]
@@ -278,7 +285,7 @@ def catalogue_c15(tier):
 def catalogue_c16(tier):
     iv = lambda d: T('interval', d)
     cs = []
-    for d in ([100] if tier == 'quick' else [100, 150]):
+    for d in ([100, 35] if tier == 'quick' else [100, 150, 35, 7]):
         cs += [timed(case('c16/interval-%d' % d, iv(d), [[SL(3 * d + d // 2), UNSUB1, SL(3 * d)]], tags=['interval']), d),
                timed(case('c16/timer-%d' % d, T('timer', d, b=7), [[SL(3 * d)]], tags=['timer']), d),
                timed(case('c16/delay-%d' % d, T('delay', d, ins=[S(1)]), [[E(1, 'n', 11), SL(40), E(1, 'n', 12), E(1, 'c')]], tags=['delay']), d),
